@@ -23,6 +23,15 @@ void harness(void)
 {
 	unsigned ids[K]; const void *obj[K]; int kind[K]; int nameidx[K];
 	int n = 0, k, j;
+#if defined(OPS) && defined(NAMEIDX)
+	/* region: the same (long enough) name registered both as interface and as metatype.  The kind and
+	 * name sequences are fixed by the driver, so membership is decided once, before the history
+	 * (a constraint inside the loop would cut the twin's path at the first step outside the region) */
+	{ static const int o_[] = OPS, n_[] = NAMEIDX; int cross = 0, a, b;
+	  for (a = 0; a < K; a++) for (b = 0; b < a; b++)
+		if (o_[a] >= 2 && o_[b] >= 2 && o_[a] != o_[b] && n_[a] == n_[b] && n_[a] != 2) cross = 1;
+	  V_KF(KF_C06_NAME_CROSS_KIND, cross); }
+#endif
 	for (k = 0; k < K; k++) {
 #ifdef OPS
 		static const int opseq[] = OPS;
@@ -54,9 +63,11 @@ void harness(void)
 #endif
 			const MPT_STRUCT(named_traits) *e;
 			for (j = 0; j < n; j++) if (nameidx[j] == ni && kind[j] == op) dup = 1;   /* duplicates are per kind */
+#if !(defined(OPS) && defined(NAMEIDX))
 			{ int cross = 0; for (j = 0; j < n; j++) if (nameidx[j] == ni && kind[j] != op && kind[j] >= 2) cross = 1;
 			  /* region: the same name registered both as interface and as metatype */
 			  V_KF(KF_C06_NAME_CROSS_KIND, cross); }
+#endif
 			e = (op == 2) ? mpt_type_interface_add(names[ni]) : mpt_type_metatype_add(names[ni]);
 			if (ni == 2) { V_ASSERT(e == 0, "names shorter than 4 characters are refused"); continue; }
 			if (dup) { V_ASSERT(e == 0, "duplicate names are refused"); continue; }
